@@ -421,6 +421,9 @@ func (g *Gen) buildCall(op *OpDesc) (Call, bool) {
 			n = 4
 		default:
 			n = 5 + rng.Intn(8)
+			if rng.Bool(0.25) {
+				n = 13 + rng.Intn(21) // long term lists: 13..33
+			}
 		}
 		if n > 0 && (len(ip) == 0 || len(w.S) == 0) {
 			return c, false
@@ -1089,8 +1092,12 @@ func (g *Gen) enumMisuse() {
 				continue
 			}
 			if op.Multi {
-				for n := 1; n <= 5; n++ {
+				ns := []int{1, 2, 3, 4, 5, 8, 16, 17, 32}
+				for _, n := range ns {
 					for j := 0; j < n; j++ {
+						if n > 5 && j != 0 && j != n-1 && j != n/2 && j != 13%n {
+							continue // long lists: first, middle, 13th and last position
+						}
 						ip := g.initPoints()
 						if len(ip) < 1 {
 							continue
